@@ -486,6 +486,11 @@ pub fn seed_ops(name: &str) -> Vec<PuOp> {
             .collect(),
         // a three-asset stableswap pool funded at the minimum-liquidity scale whose middle reserve was then emptied by two
         // swaps under a belief price generous enough to pass the price protection (the first leaves the swap fee behind)
+        "S8a" => {
+            let mut v = seed_ops("S8");
+            v.pop();
+            v
+        }
         "S8" => {
             let drain = |amt: u128| PuOp::Swap { u: B, pool: "o.ss".into(), offer: vec![("uusd".into(), amt)], ask: "uusdc".into(), slip: Some(5000), belief: Some((E18, 1)), recv: None };
             vec![
